@@ -198,14 +198,15 @@ void quad_case(const Q& q, Out& o) {
         if (L <= 12) check_write<T>(q, m, "list", L, src, false, [&](auto&& s) { assign_list<T>(s, src, L); }, o);
         // slices of another array: unit, strided and reversed sources, mutable and const
         for (int ss : {1, 2, -1, -3}) {
-            const int ny = 40;
+            const int ny = 96;
             base_array<T> y = sentinel<T>(ny, 7000);
             const base_array<T>& cy = y;
             const int a = ss > 0 ? 3 : 3 + (L > 0 ? (L - 1) * (-ss) : 0) ;
             // source denotes y[a], y[a+ss], ... (L elements)
+            const int stop = a + L * ss;
+            if (a < 0 || a >= ny || stop < -1 || stop > ny) continue;
             std::vector<T> sv;
-            for (int k = 0; k < L; ++k) sv.push_back(y[a + k * ss]);
-            const int stop = a + L * ss;   // exclusive stop; may be -1 for reversed sources reaching index 0 -> avoid by a >= 3
+            for (int k = 0; k < L; ++k) sv.push_back(y[a + k * ss]);   // exclusive stop; may be -1 for reversed sources reaching index 0 -> avoid by a >= 3
             if (L == 0) {
                 check_write<T>(q, m, "slice(empty)", 0, sv, false, [&](auto&& s) { s = y.slice(a, a, ss); }, o);
                 continue;
